@@ -260,7 +260,7 @@ pub fn generate(prop: &str, tier: &str, r: &mut Rng, out: &mut Vec<String>) -> G
                     }
                 }
             }
-            GenInfo { rule: "12 request shapes (10 builders, 2 raw constructors) x seeded random arguments, builder calls and 0-5 further additions (incl. job-uri, job-id, printer-uri, charset in any order), each shape built as several fresh instances (fresh randomly keyed hash maps) and encoded; the bytes up to the end of the RFC 8011 header attributes are compared and the order oracle reads the names off the wire; non-trivial counts distinct shapes".into(), exhaustive: false }
+            GenInfo { rule: "12 request shapes (10 builders, 2 raw constructors) x seeded random arguments, builder calls and 0-5 further additions (incl. job-uri, job-id, printer-uri, charset in any order, and the other operation attributes RFC 8011 registers, e.g. status-message, job-name, requested-attributes), each shape built as several fresh instances (fresh randomly keyed hash maps) and encoded; the bytes up to the end of the RFC 8011 header attributes are compared and the order oracle reads the names off the wire; non-trivial counts distinct shapes".into(), exhaustive: false }
         }
         "C05" => {
             use crate::gen3::*;
@@ -581,7 +581,7 @@ pub fn generate(prop: &str, tier: &str, r: &mut Rng, out: &mut Vec<String>) -> G
                     bytes *= 2;
                 }
             }
-            GenInfo { rule: "sixteen size-parameterised input families (nesting depth, set width, attributes, duplicate attributes, groups, members, unclosed begins, stray ends, maximal values, sets of collections, nested multi-valued members, long non-UTF-8 names and texts, a long value before many small ones, a wide set before many attributes, groups that leave collections open; well-formed and malformed), n doubling from 4 KiB to 1 MiB of input (1 KiB to 2 MiB thorough) plus tiny sizes; for each the real blocking parse, the async parse of the whole input and the async parse of the input delivered in 64-byte and 536-byte pieces are measured by a counting allocator (bytes and calls per input byte against absolute ceilings, growth factor on doubling <= 2.5, fragmented delivery must not allocate more than twice the whole delivery, time per byte ceiling and time growth on doubling <= 3x once above 100 ms); consumed bytes compared with the model up to 4096 elements; non-trivial = distinct (family, n)".into(), exhaustive: false }
+            GenInfo { rule: "seventeen size-parameterised input families (nesting depth, set width, attributes, duplicate attributes, groups, members, unclosed begins, stray ends, maximal values, sets of collections, nested multi-valued members, long non-UTF-8 names and texts, a long value before many small ones, a wide set before many attributes, groups that leave collections open, a wide group before many groups; well-formed and malformed), n doubling from 4 KiB to 1 MiB of input (1 KiB to 2 MiB thorough) plus tiny sizes; for each the real blocking parse, the async parse of the whole input and the async parse of the input delivered in 64-byte and 536-byte pieces are measured by a counting allocator (bytes and calls per input byte against absolute ceilings, growth factor on doubling <= 2.5, fragmented delivery must not allocate more than twice the whole delivery, time per byte ceiling and time growth on doubling <= 3x once above 100 ms); consumed bytes compared with the model up to 4096 elements; non-trivial = distinct (family, n)".into(), exhaustive: false }
         }
         "C11" => {
             let lim = Limits { max_depth: 2, boundary: false };
